@@ -1280,6 +1280,10 @@ func (c *Core) performKeyUpgrades(ctx context.Context) error {
 		return fmt.Errorf("error reloading shamir kek key: %w", err)
 	}
 
+	if err := c.performNamespaceKeyUpgrades(ctx); err != nil {
+		return fmt.Errorf("error performing namespace key upgrades: %w", err)
+	}
+
 	if err := c.scheduleUpgradeCleanup(ctx); err != nil {
 		return fmt.Errorf("error scheduling upgrade cleanup: %w", err)
 	}
@@ -1439,4 +1443,46 @@ func (c *Core) StandbyReadsEnabled() bool {
 		return false
 	}
 	return !conf.DisableStandbyReads
+}
+
+// performNamespaceKeyUpgrades brings the key material of every unsealed
+// namespace barrier in line with storage, like performKeyUpgrades does for
+// the root barrier, and drops the cached seal configuration of every
+// namespace seal.
+func (c *Core) performNamespaceKeyUpgrades(ctx context.Context) error {
+	sm := c.sealManager
+	sm.lock.RLock()
+	var barriers []barrier.SecurityBarrier
+	sm.barrierByNamespacePath.Walk(func(p string, b any) bool {
+		if p != "" && b != nil {
+			barriers = append(barriers, b.(barrier.SecurityBarrier))
+		}
+		return false
+	})
+	var seals []Seal
+	for uuid, s := range sm.sealByNamespace {
+		if uuid != namespace.RootNamespaceUUID && s != nil {
+			seals = append(seals, s)
+		}
+	}
+	sm.lock.RUnlock()
+
+	for _, s := range seals {
+		_ = s.SetBarrierConfig(ctx, nil)
+	}
+	for _, b := range barriers {
+		if b.Sealed() {
+			continue
+		}
+		if err := c.checkKeyringUpgrade(ctx, b); err != nil {
+			return err
+		}
+		if err := b.ReloadRootKey(ctx); err != nil {
+			return err
+		}
+		if err := b.ReloadKeyring(ctx); err != nil {
+			return err
+		}
+	}
+	return nil
 }
